@@ -19,10 +19,46 @@ func genPlanted(r *Rand) (*Project, *Expect) {
 	type block struct {
 		lines []string
 		mark  int // index of the offending line within lines, -1: none
+		col   int // > 0: the error has to point at this byte of the marked line (1-based), else anywhere on it
 	}
 	var blocks []block
 	why, msgHas := "", ""
-	switch r.Intn(3) {
+	switch r.Intn(4) {
+	case 3:
+		// one parameter too many, after a first parameter that is quoted and contains blanks (or
+		// that it follows without a blank): the error is about the second one and points at it
+		type pd struct {
+			pre  []string
+			line string
+			at   string // the offending parameter (its first occurrence after the first parameter)
+			post []string
+		}
+		cands := []pd{
+			{[]string{"INFO"}, `  Title "My API" "x"`, `"x"`, nil},
+			{nil, `GET "/a b" /c`, `/c`, []string{"  200 any"}},
+			{[]string{"GET /pl"}, `  OperationId "get cats" again // note`, `again`, []string{"  200 any"}},
+			{nil, `GET "/a"/c`, `/c`, []string{"  200 any"}},
+			{nil, `TYPE @plcat zzz2`, `zzz2`, []string{`  {"a": 1}`}},
+			{[]string{"INFO"}, `  Version "1.0 beta" 2`, `2`, nil},
+		}
+		c := cands[r.Intn(len(cands))]
+		if r.Chance(1, 3) {
+			c.line = strings.Replace(c.line, " ", "\t", 1) // a tab between the keyword and the first parameter
+			if c.line[0] == '\t' {
+				c.line = " " + c.line
+			}
+		}
+		first := strings.Index(c.line, c.at)
+		if strings.HasPrefix(strings.TrimLeft(c.line, " \t"), "GET \"/a\"/c") || strings.Contains(c.line, "\"/a\"/c") {
+			first = strings.LastIndex(c.line, "/c")
+		} else if c.at == `"x"` || c.at == "2" || c.at == "z" || c.at == "/c" || c.at == "again" || c.at == "zzz2" {
+			first = strings.LastIndex(c.line, c.at)
+		}
+		b := block{mark: len(c.pre), col: first + 1}
+		b.lines = append(append(append(b.lines, c.pre...), c.line), c.post...)
+		blocks = append(blocks, b)
+		blocks = append(blocks, block{lines: []string{"GET /planted2", "  200 any"}, mark: -1})
+		why = "a superfluous parameter after a quoted one: " + strings.TrimSpace(c.line)
 	case 0:
 		// a chain of 3-5 user types; the deepest one has a defect that is only found when its
 		// schema is loaded (on behalf of a type further up the chain)
@@ -75,6 +111,15 @@ func genPlanted(r *Rand) (*Project, *Expect) {
 				fl = append(fl, "")
 			}
 			ex = Expect{File: name, Off: -1, Line: len(fl) + b.mark + 1}
+			if b.col > 0 {
+				ex.Off = len(strings.Join(fl, nl)) + len(strings.Join(b.lines[:b.mark], nl)) + b.col - 1
+				if len(fl) > 0 {
+					ex.Off += len(nl)
+				}
+				if b.mark > 0 {
+					ex.Off += len(nl)
+				}
+			}
 			fl = append(fl, b.lines...)
 			p.Files = append(p.Files, GenFile{Path: name, Data: []byte(strings.Join(fl, nl) + nl), CRLF: nl != "\n"})
 			root = append(root, "INCLUDE "+name)
@@ -82,6 +127,12 @@ func genPlanted(r *Rand) (*Project, *Expect) {
 		}
 		if b.mark >= 0 {
 			ex = Expect{File: "root.jst", Off: -1, Line: len(root) + b.mark + 1}
+			if b.col > 0 {
+				ex.Off = len(strings.Join(root, nl)) + len(nl) + len(strings.Join(b.lines[:b.mark], nl)) + b.col - 1
+				if b.mark > 0 {
+					ex.Off += len(nl)
+				}
+			}
 		}
 		root = append(root, b.lines...)
 		if r.Chance(1, 3) {
